@@ -286,6 +286,12 @@ func GenerateScript(seed uint64, prop, tier string, env *Env) *Script {
 	if rng.Chance(0.5) {
 		s.Config.LegacyVersionMap = true
 	}
+	if rng.Chance(0.25) {
+		s.Config.Genesis.DropEmptySections = true // a genesis file that leaves out the modules whose section would be {}
+	}
+	if prop == "C09" && rng.Chance(0.15) {
+		s.Config.Genesis.LagCounters = true // valid but not self-consistent: record counters behind the records listed
+	}
 	if rng.Chance(0.5) {
 		s.Config.TZ = []string{"Asia/Seoul", "America/St_Johns", "Pacific/Kiritimati", "America/Los_Angeles"}[rng.Intn(4)]
 	}
@@ -693,7 +699,21 @@ func (g *Gen) famAolAdv() {
 	t := topics[r.Intn(len(topics))]
 	ws := g.planWriters(t[0], t[1])
 	stranger := g.addr(6 + r.Intn(3))
-	switch r.Intn(9) {
+	switch r.Intn(11) {
+	case 9, 10: // an address that is not (or no longer) a writer appends, with a LISTED writer of the same topic as the fee payer
+		if len(ws) > 0 {
+			payer := ws[r.Intn(len(ws))]
+			who := stranger
+			if len(ws) > 1 && r.Chance(0.5) {
+				// a writer the owner has just removed
+				who = ws[(indexOf(ws, payer)+1)%len(ws)]
+				g.tx(M("aol.DeleteWriter", "topic", t[1], "owner", t[0], "writer", who))
+			}
+			if who != payer && g.env.AccByAddr(mustAddr(who)) != nil && g.env.AccByAddr(mustAddr(payer)) != nil {
+				g.tx(g.recordSpec(t[0], t[1], who, payer))
+				g.tx(g.recordSpec(t[0], t[1], payer, who)) // and the other way round: the listed writer writes, the other one pays
+			}
+		}
 	case 0: // append by a never-authorised address
 		g.tx(g.recordSpec(t[0], t[1], stranger, ""))
 	case 1: // remove a writer, then the former writer appends (same or next block)
@@ -1394,6 +1414,15 @@ func (g *Gen) famBank() {
 // whose gas limit exceeds block.max_gas are refused by every node - running, restarted or catching up - alike.
 func (g *Gen) famGov() {
 	r := g.rng
+	if r.Chance(0.25) {
+		// a legacy parameter-change proposal (x/params subspaces): how a node answers must not depend on its history
+		combos := [][3]string{{"staking", "MaxValidators", `120`}, {"staking", "MaxEntries", `9`}, {"bank", "DefaultSendEnabled", `true`}, {"mint", "MintDenom", `"umed"`},
+			{"slashing", "SignedBlocksWindow", `"200"`}, {"staking", "MaxValidators", `"x"`}, {"no-such-subspace", "Nope", `true`}, {"bank", "Nope", `1`}}
+		c := combos[r.Intn(len(combos))]
+		g.emit(&TxSpec{Gas: 2_000_000, Msgs: []MsgSpec{{T: "gov.SubmitLegacyParam", F: map[string]string{"proposer": g.addr(r.Intn(NumAccounts)), "subspace": c[0], "key": c[1], "value": c[2]},
+			Coins: []CoinSpec{{Denom: FeeDenom, Amount: "1"}}}}})
+		return
+	}
 	if r.Chance(0.35) {
 		// a proposal that spends from the community pool (fees collected so far), to an account or to the burn address:
 		// coins that arrive at the burn address inside EndBlock, after every transaction of the block
